@@ -1466,6 +1466,9 @@ impl<'a> Run<'a> {
         }
         if self.mon.c12 {
             self.check_c12(idx);
+            if idx % 3 == 0 {
+                self.check_c12_byzantine(idx);
+            }
         }
         if self.mon.c08 && self.slots[idx].sealed && op == "seal" {
             self.check_c08_seal(idx);
@@ -1666,6 +1669,34 @@ impl<'a> Run<'a> {
             Obj::U(u) => u.revocation_identifiers(),
         };
         self.stats.oracle_evals += 1;
+        // uniqueness through the convenience entry points that draw the next key from the OS:
+        // the same block appended twice to the same token must get two different identifiers
+        // (only this boolean enters the run's record, never the drawn values)
+        if !self.slots[idx].sealed && self.cur % 4 == 0 {
+            let twice: Option<(Vec<u8>, Vec<u8>)> = match &self.slots[idx].obj {
+                Obj::V(b) => {
+                    let bb = || biscuit_auth::builder::BlockBuilder::new().code("uniq(1);").unwrap();
+                    match (b.append(bb()), b.append(bb())) {
+                        (Ok(x), Ok(y)) => Some((x.revocation_identifiers().pop().unwrap_or_default(), y.revocation_identifiers().pop().unwrap_or_default())),
+                        _ => None,
+                    }
+                }
+                Obj::U(u) => {
+                    let bb = || biscuit_auth::builder::BlockBuilder::new().code("uniq(1);").unwrap();
+                    match (u.append(bb()), u.append(bb())) {
+                        (Ok(x), Ok(y)) => Some((x.revocation_identifiers().pop().unwrap_or_default(), y.revocation_identifiers().pop().unwrap_or_default())),
+                        _ => None,
+                    }
+                }
+            };
+            if let Some((x, y)) = twice {
+                self.stats.bump("c15.os_rng_probe");
+                self.stats.oracle_evals += 1;
+                if x == y {
+                    self.violate("C15", "revocation-id-collision", format!("slot {idx}: appending the same block twice through append() gives the same identifier"));
+                }
+            }
+        }
         if let Some(p) = self.slots[idx].parent {
             let pids: Vec<Vec<u8>> = match &self.slots[p].obj {
                 Obj::V(b) => b.revocation_identifiers(),
